@@ -164,7 +164,7 @@ fn main() {
         "de-replay" => {
             de_leg::load_schemas(&get("schemas", ""), get("max-schemas", "40").parse().unwrap());
             let s = de_leg::replay(&de_leg::Opts { file: get("file", ""), prop: get("prop", "C07"), out_dir: get("out-dir", "evidence/replay"), mode: get("mode", "soup"), seed, mutate: get("mutate", "0") == "1",
-                sizes: get("sizes", "1,3").split(',').filter_map(|x| x.parse().ok()).collect() });
+                sizes: get("sizes", "1,3").split(',').filter_map(|x| x.parse().ok()).collect(), stride: get("stride", "1").parse().unwrap() });
             println!("SUMMARY {}", serde_json::to_string(&s).unwrap());
         }
         "de-mutate" => {
